@@ -1304,6 +1304,13 @@ pub fn generate(ctx: &mut Ctx) {
     // sample of ordinary cases through a second C process linked with target/release/libcoupe.so
     for _ in 0..ctx.budget(150, 900) {
         let (kind, op) = gen_panic(ctx);
+        if kind == 7 {
+            // an asymmetric matrix is not an adjacency structure (outside the contract); the dev
+            // build stops on a debug assertion, the release build has none and FiducciaMattheyses
+            // need not terminate on such input — not a statement about panics, left out here
+            ctx.count("release:panic_stream:kind7_skipped_out_of_contract");
+            continue;
+        }
         ctx.count(&format!("release:panic_stream:kind{}", kind));
         emit_rel(ctx, op);
     }
